@@ -35,7 +35,7 @@ AA = "ACDEFGHIKLMNPQRSTVWY"
 
 def budget(tier):
     if tier == "quick":
-        return {"examples": 2400, "shards": 16, "time_s": 60}
+        return {"examples": 8000, "shards": 16, "time_s": 60}
     return {"examples": 160000, "shards": 16, "time_s": 1500}
 
 
